@@ -11,15 +11,22 @@ if grep -E "cargo test.*--test" $d/RUN.md | grep -q -- "--features"; then feat="
 if grep -qE "roxmltree|resvg|png::" $d/demo.rs; then feat="--features svg,image"; fi
 rf=""
 if grep -q "fast_qr_verif" $d/RUN.md; then rf="--cfg fast_qr_verif"; feat="--features svg"; fi
+# demos that need the release profile (a defect compiled in only without debug assertions) or extra dev-dependencies
+rel=""
+if grep -E "cargo test" $d/RUN.md | grep -q -- "--release"; then rel="--release"; fi
+if grep -q "target-feature=+avx2" $d/RUN.md; then rf="$rf -C target-feature=+avx2"; fi
+if grep -qE "^use roxmltree|roxmltree::" $d/demo.rs && ! grep -q "^roxmltree" Cargo.toml; then
+  sed -i 's/^\[dev-dependencies\]/[dev-dependencies]\nroxmltree = "0.20"/' Cargo.toml
+fi
 git apply $d/patch.diff || { echo '{"applies": false}' > $d/confirm.json; exit 1; }
 b1=$(cargo build --offline 2>&1 | grep -c "^error")
 b2=$(cargo build --offline --features svg,image 2>&1 | grep -c "^error")
 lib=$(cargo test --offline --lib 2>&1 | grep "test result" | head -1)
 mkdir -p tests && cp $d/demo.rs tests/demo_x.rs
-withp=$(RUSTFLAGS="$rf" cargo test --offline --test demo_x $feat 2>&1 | grep "test result" | head -1)
-git checkout -q -- . 
-withoutp=$(RUSTFLAGS="$rf" cargo test --offline --test demo_x $feat 2>&1 | grep "test result" | head -1)
-rm -rf tests
+withp=$(RUSTFLAGS="$rf" cargo test --offline $rel --test demo_x $feat 2>&1 | grep "test result" | head -1)
+git checkout -q -- src
+withoutp=$(RUSTFLAGS="$rf" cargo test --offline $rel --test demo_x $feat 2>&1 | grep "test result" | head -1)
+rm -rf tests; git checkout -q -- .
 python3 - "$d" "$b1" "$b2" "$lib" "$withp" "$withoutp" "$feat" <<'PY'
 import json,sys
 d,b1,b2,lib,wp,wo,feat=sys.argv[1:]
